@@ -282,7 +282,7 @@ def run(ctx):
                             below.add(name)
                     except (tq.NoValue, Exception):
                         ok = False
-                ok = ok and below == set(n for n, v in ts_states.members.items() if v < ts_states.members['ESTABLISHED'])
+                ok = ok and below == common.pre_auth_states(ctx, ts_states)
         ctx.check(ok, 'Q3', 'the secret is armed iff the number of table entries below ESTABLISHED exceeds cookie_threshold',
                   key=('Q3', 'threshold'), site=ctx.site(dm, a.ast))
     ci = ctx.func('ikesacontroller.IkeSaController.__init__')
